@@ -123,3 +123,13 @@ def verify(contract, module, qualname, variant=None, timeout_ms=10000):
 def _is_support(oid):
     name = oid.split(":", 1)[1] if ":" in oid else oid
     return name.startswith("loop") or name.startswith("lemma:")
+
+
+def verify_callsite(label, handler, contract, module, qualname, variant, nargs, kw):
+    """One call-site contract against the contract proved for the callee (pyvc/conform.py)."""
+    from .conform import conform
+    t0 = time.time()
+    out = conform(label, handler, contract, module, qualname, variant, nargs, kw)
+    out.append({"_stats": dict(v_callsite_contracts_checked_against_callee_contract=1, v_conformance_obligations=len(out),
+                               v_conformance_time=round(time.time() - t0, 3))})
+    return out
